@@ -7,6 +7,7 @@ import pcommon
 from cxxheaderparser.simple import parse_string
 from cxxheaderparser.errors import CxxParseError
 
+TECHNIQUE = 'Lean 4: interpreter theorems for the bounded trial parse (restores the outer stream, catches its errors) for every client, kernel-decided token sets; declarator round trip decided by correspondence of the parser model and an independent inside-out printer oracle (not a theorem)'
 LEAN_TARGET = "CxxModel.Props.C02"
 THEOREMS = ["Cxx.C02_bounded_restores", "Cxx.C02_trial_error_caught", "Cxx.C02_type_token_sets", "Cxx.rules_supported"]
 ANCHORS = ["parser.py:CxxParser._parse_type", "parser.py:CxxParser._parse_cv_ptr", "parser.py:CxxParser._parse_cv_ptr_or_fn",
